@@ -179,6 +179,11 @@ def run(ctx):
         raise Machinery("the transcribed split formula violates %s in the model: spec and code disagree by construction\n%s"
                         % (r.violated, r.trace_text))
     ctx.exhaustive = True
+    # the same formula for ALL n >= p >= 1 (unbounded integers, SMT): PartitionApa.tla restates Start/BLen and the per-block
+    # consequences (tiles 0..n, balanced, non-empty, monotone, <= MaxLen); Apalache discharges them at length 0
+    if not ctx.apalache("PartitionApa", "Init", "All", 0, what="split formula, all n >= p >= 1 (unbounded)"):
+        raise Machinery("PartitionApa: the split formula violates its statement for some n >= p >= 1")
+    ctx.note("Apalache: split formula tiles, is balanced / non-empty / monotone for all n >= p >= 1 (unbounded integers)")
     # 2. tables of the real Layout class
     events = []
     meta = {}
